@@ -1171,6 +1171,8 @@ class C16(PropertyCheck):
         "QipVerif.C16.noisy_repeat_equal",
         "QipVerif.C16.noisy_result_new",
         "QipVerif.C16.C16_counterexample_noisy_pulses_accumulate",
+        "QipVerif.C16.noise_list_unchanged",
+        "QipVerif.C16.C16_counterexample_noise_list_grows",
         "QipVerif.C16.C16_counterexample_reverse_shares",
         "QipVerif.C16.C16_counterexample_chain_shares_lists",
         "QipVerif.C16.C16_counterexample_noise_rewrites",
@@ -1476,7 +1478,15 @@ class C16(PropertyCheck):
             res.disagree({"pcfg": pcfg}, "hypothesis of C16.noisy_pulses_unchanged: procCopy = true or noiseCopy = deep",
                          json.dumps(pcfg), "the code makes no deep copy between Processor.pulses and the noise objects: "
                          "the hypothesis of the theorems on noisy evaluation is not met", PN.W_AMP)
-        npn = 2500 if ctx.thorough else 120
+        self.lcfg = lcfg = PN.probe_lcfg(paths.REPO)
+        res.notes.append("copies of the LIST of noise objects (process_noise / Model.get_noise), read from the source and "
+                         "confirmed by behaviour: " + json.dumps(lcfg))
+        if not lcfg["noiseListCopy"]:
+            res.disagree({"lcfg": lcfg}, "hypothesis of C16.noise_list_unchanged: a copy of the list of noise objects is made "
+                         "before RelaxationNoise(t1, t2) is appended", json.dumps(lcfg),
+                         "process_noise appends to the list it is given (a caller's list, or the list a user-defined model "
+                         "hands out): the hypothesis of noise_list_unchanged is not met", PN.W_LIST_DIRECT)
+        npn = 2500 if ctx.thorough else 140
         wits, impls, lines = [], [], []
         for it in range(npn):
             w = PN.gen_pnoise(rng) if it >= len(PN.FIXED) else PN.FIXED[it]
@@ -1486,7 +1496,7 @@ class C16(PropertyCheck):
                 except Exception as e:
                     res.case(w, nontrivial=False, tags=["stream=pulse-noise", "not-constructible=" + type(e).__name__])
                     continue
-            line = PN.encode(w, pcfg, ideals, nd)
+            line = PN.encode(w, pcfg, ideals, nd, lcfg=lcfg)
             wits.append(w)
             impls.append(out)
             lines.append(line)
@@ -1494,7 +1504,8 @@ class C16(PropertyCheck):
         for w, out, line in zip(wits, impls, lines):
             classes = sorted({"noise=" + s_["c"] for s_ in w["noise"]} | ({"noise=zz"} if w.get("zz_builtin") else set())
                              | ({"noise=t1t2"} if (w.get("t1") is not None or w.get("t2") is not None) else set()))
-            tags = ["stream=pulse-noise", "processor=" + w["proc"], "evaluations=%d" % len(w["calls"])] + classes + \
+            tags = ["stream=pulse-noise", "processor=" + w["proc"], "evaluations=%d" % len(w["calls"]),
+                    "owner=" + (w.get("via") or w.get("model") or "builtin")] + classes + \
                 sorted({"call=" + c[0] for c in w["calls"]})
             if line is None:
                 res.case(w, nontrivial=False, tags=tags + ["outside-model=invalid-t1-t2"])
@@ -1505,8 +1516,9 @@ class C16(PropertyCheck):
             if len(chunks) != len(w["calls"]):
                 res.disagree(w, o[:300], "-", "model answer not understood", w)
                 continue
-            for k, (c, (verdict, ret, held), ch) in enumerate(zip(w["calls"], out, chunks)):
+            for k, (c, (verdict, ret, held, nlen), ch) in enumerate(zip(w["calls"], out, chunks)):
                 head, _, heldm = ch.partition(" @")
+                heldm, _, nlm = heldm.partition(" #")
                 if verdict.startswith("err other:") and verdict.split(":")[1] in NOT_EVALUABLE:
                     res.hist["pulse-noise-not-evaluable=" + verdict.split(":")[1]] = \
                         res.hist.get("pulse-noise-not-evaluable=" + verdict.split(":")[1], 0) + 1
@@ -1515,6 +1527,9 @@ class C16(PropertyCheck):
                 diff = None
                 if hi != heldm:
                     diff = f"call {k} {c}: pulses held by the processor afterwards: model {heldm}, implementation {hi}"
+                elif nlen is not None and not verdict.startswith("err") and str(nlen) != nlm:
+                    diff = (f"call {k} {c}: entries of the owner's list of noise objects afterwards: model {nlm}, "
+                            f"implementation {nlen}")
                 elif verdict.startswith("err other"):
                     diff = f"call {k} {c}: implementation raised {verdict[10:]}, model {head}"
                 elif verdict == "err index" and head != "err index":
